@@ -980,6 +980,77 @@ CHECKS["C17"] = {
 }
 
 
+def c18_run(rep, tier, seed, tr):
+    import cli as C, random, shutil as _sh
+    rep.rules.append("1-3 files with 1-12 (thorough: 1-40) scripted blocks; scripts: echo / busy-loop echo (arguments returned between separators and compared verbatim with the model's rendering of file, line, attributes, content), nil, fixed string, and failing ones (syntax error, runtime error, top-level error, missing validate, number / table / boolean result, missing file) on any subset; contents with Unicode, quotes, tabs, blank lines; check-lua-pattern with value group / whole match / no match / invalid regex; in-process runs plus the binary under 1 / 4 / 16 runtime workers and pinned to one core; a safe-mode counting script checks that every block is called exactly once; non-trivial = at least 2 scripted blocks")
+    n = n_for(tier, 1500, 20000)
+    rows = K.run_component(rep.prop, "lua", [], seed, n, tier)
+    def nontrivial(case, impl, model):
+        return case["meta"]["blocks"] >= 2
+    K.correspondence(rep, rows, "lua", nontrivial, known=K.load_known(rep.prop), oracle=oracle_fail_closed)
+    sel = [r for r in rows if "err" not in r[2].get("ctx", {})][:n_for(tier, 40, 300)]
+    variants = [("workers-1", {"env_extra": {"TOKIO_WORKER_THREADS": "1"}}), ("workers-4", {"env_extra": {"TOKIO_WORKER_THREADS": "4"}}),
+                ("workers-16", {"env_extra": {"TOKIO_WORKER_THREADS": "16"}}), ("one-core", {"prefix": ["taskset", "-c", "0"]})]
+    def one(row):
+        return [(name, C.run_case_cli(row[0], **kw)) for name, kw in variants]
+    for (case, impl, model), outs in zip(sel, C.pmap(one, sel, workers=8)):
+        for name, res in outs:
+            rep.evaluations += 1
+            rep.traces += 1
+            out = C.outcome_validate(res)
+            diffs = C.compare_cli_validate(out, model)
+            rep.count(f"lua:cli:{name}:" + ("panic" if "panic" in out else f"exit{out.get('exit')}"))
+            if diffs:
+                rep.violation({"property": rep.prop, "component": f"lua (CLI {name})", "what": "the binary disagrees with the model under this schedule",
+                               "case": case, "cli": res, "model": model, "differences": [{"field": f, "cli": a, "model_and_spec": b} for f, a, b in diffs]})
+                break
+    # exactly one call per scripted block (safe mode script appends to a log)
+    rnd = random.Random(seed)
+    count_script = os.path.join(K.ROOT, "tools", "lua", "count.lua")
+    def count_case(k):
+        nblocks = rnd.randint(1, 12 if tier == "quick" else 40)
+        nfiles = rnd.randint(1, 3)
+        files, expected = {}, []
+        for b in range(nblocks):
+            p = f"c{b % nfiles}.py"
+            cur = files.get(p, "")
+            line = cur.count("\n") + 1
+            scripted = rnd.random() < 0.8
+            attr = f' check-lua="{count_script}"' if scripted else ""
+            files[p] = cur + f"# <block name=\"n{b}\"{attr}>\nx{b}\n# </block>\n"
+            if scripted:
+                expected.append(f"{p}:{line}")
+        return files, sorted(expected)
+    cases = [count_case(k) for k in range(n_for(tier, 12, 80))]
+    def run_count(c):
+        files, expected = c
+        root = C.tmp_root()
+        try:
+            C.materialise(root, list(files.items()))
+            log = os.path.join(root, "calls.log")
+            res = C.run_bw(root, [], env={"BLOCKWATCH_TERMINAL_MODE": "1", "BLOCKWATCH_LUA_MODE": "safe", "BW_COUNT_LOG": log,
+                                          "TOKIO_WORKER_THREADS": str(rnd.choice([1, 2, 16]))})
+            got = sorted(open(log).read().split()) if os.path.exists(log) else []
+            return res, got
+        finally:
+            _sh.rmtree(root, ignore_errors=True)
+    for (files, expected), (res, got) in zip(cases, C.pmap(run_count, cases, workers=8)):
+        rep.evaluations += 1
+        rep.traces += 1
+        rep.count(f"lua:count:{len(expected)}blocks")
+        if got != expected or res["exit"] != 0:
+            rep.violation({"property": rep.prop, "component": "lua (call count)", "what": "validate() was not called exactly once per scripted block",
+                           "files": files, "expected_calls": expected, "observed_calls": got, "cli": res})
+
+
+CHECKS["C18"] = {
+    "module": "Bw.Props.C18", "needs_binary": True,
+    "level_note": DEFAULT_LEVEL_NOTE + " Partial: the Lua interpreter is an outcome oracle of the model except for the echo scripts, whose output the model predicts; real task interleavings are sampled (worker counts, CPU pinning, busy loops), the theorem covers every order of the model.",
+    "trusted_base": TB_COMMON + ["mlua / Lua 5.4 (the echo scripts tie the arguments; other scripts' results are oracle entries by construction)", "tokio scheduling is exercised, not modelled"],
+    "run": c18_run,
+}
+
+
 def replay(prop, path):
     """re-run one recorded case against the current tree and the model; print both outcomes"""
     data = json.load(open(path))
